@@ -951,12 +951,13 @@ func init() {
 		section{"generic", tiered(nt*4, nt*60), c05Generic},
 		section{"random", tiered(6000, 200000), c05Random},
 		section{"zones", tiered(nt*12, nt*nt), c05Zone},
+		concurrentSection("C05"),
 	)
 	core.Register(&core.Monitor{
 		ID: "C05", Level: "exploration", Plan: plan, Run: run, Terminates: true,
 		Rule: "every type with a presentation format: an otherwise plain record with one of 22 hostile contents (space, tab, quote, backslash, \\DDD-looking digits, trailing backslash, semicolon, parentheses, newline, CR, NUL, DEL, high-bit octets, $ and @, empty, 255 octets, dots, leading digit, #) injected into one text field or the owner at a time; fully random well-formed records; " +
 			"both wire-decoded and struct-built records: String() must be accepted by NewRR with identical header and octet-identical RDATA; an independent RFC 1035 s.5.1 tokenizer must accept the text and, for 56 regular types, read every field value back; " +
-			"names of the maximum length (255 octets, all-escaped = 1004 characters) as owner and in every name field; zones made of 2..5 String() lines (every type first, varied successors) read back record for record; RFC 3597 generic form and TYPEnnn/CLASSnnn/mnemonic/lower-case spellings for every type; all 65536 type and class codes in both spellings; non-trivial = distinct record wire",
+			"names of the maximum length (255 octets, all-escaped = 1004 characters) as owner and in every name field; zones made of 2..5 String() lines (every type first, varied successors) read back record for record; RFC 3597 generic form and TYPEnnn/CLASSnnn/mnemonic/lower-case spellings for every type; all 65536 type and class codes in both spellings; the same operations called from 8 goroutines at once give the results they give alone; non-trivial = distinct record wire",
 		Assumptions: []string{"OPT, TSIG, TKEY, NULL, ANY, NXNAME and RDATA-less records have no presentation format", "record classes with a C01 known finding are excluded"},
 		MinObserved: []string{"roundtrips", "independent_reads", "generic_forms", "numeric_spellings", "codes", "zones"},
 	})
